@@ -105,4 +105,40 @@ example : Kind.all.all (fun k =>
     (([ "from_owned", "from_ref", "owned_into", "ref_into"].map (applOf applSixFns)).filter (·.get k)).length
       == (if (applOf applSixFns "map").get k then 1 else 0)) = true := by decide
 
+/-- C12 (*table*, regenerated): the six basic kinds are indexed in the order the applicability vectors are written in
+    (`impl Index<&Kind>`), and every (kind, fallibility) is displayed under the name of its basic instruction — the
+    names the shortcut tables and the diagnostics use -/
+theorem C12_kind_tables :
+    (Gen.kindIndex == [("OwnedInto", 0), ("RefInto", 1), ("FromOwned", 2), ("FromRef", 3), ("OwnedIntoExisting", 4), ("RefIntoExisting", 5)]
+     && Gen.fallibleKindName == [(("OwnedInto", false), "owned_into"), (("RefInto", false), "ref_into"), (("FromOwned", false), "from_owned"),
+          (("FromRef", false), "from_ref"), (("OwnedIntoExisting", false), "owned_into_existing"), (("RefIntoExisting", false), "ref_into_existing"),
+          (("OwnedInto", true), "owned_try_into"), (("RefInto", true), "ref_try_into"), (("FromOwned", true), "try_from_owned"),
+          (("FromRef", true), "try_from_ref"), (("OwnedIntoExisting", true), "owned_try_into_existing"), (("RefIntoExisting", true), "ref_try_into_existing")]) = true := by
+  decide
+
+/-- C12 (*table*, regenerated): every arm that builds a trait / member mapping instruction — type level and member level,
+    fallible and not — fills its applicability vector with the six `appl_*` functions in kind-index order, so the kinds an
+    instruction name stands for are decided by those six functions alone (and those are compared with the README by
+    `C12_table`) -/
+theorem C12_map_arm_vectors :
+    ((Gen.typeArms ++ Gen.memberArms).all fun a =>
+      match a.kind with
+      | .map _ => a.appl == applSixFns
+      | _ => true) = true := by decide
+
+/-- the instruction names that stand for fallible conversions: the six basic ones and their shortcuts -/
+def fallibleNames : List String :=
+  ["owned_try_into", "ref_try_into", "try_from_owned", "try_from_ref", "owned_try_into_existing", "ref_try_into_existing",
+   "try_into", "try_from", "try_map_owned", "try_map_ref", "try_map", "try_into_existing"]
+
+/-- C12 (*table*, regenerated): an arm marks the instruction it builds as fallible exactly when the names it matches
+    are the fallible ones — at type level and at member level, basic names and shortcuts alike — so a shortcut and
+    its written-out form agree on fallibility -/
+theorem C12_fallible_flag :
+    ((Gen.typeArms ++ Gen.memberArms).all fun a =>
+      match a.kind with
+      | .map true => a.names.all (fallibleNames.contains ·)
+      | .map false => a.names.all (fun n => !fallibleNames.contains n)
+      | _ => true) = true := by decide
+
 end O2o
